@@ -53,7 +53,7 @@ enum OpKind : uint8_t {
   OP_PUSH_TRACER,  // k1 = tracer kind (0 recording, 1 stream_tracer)
   OP_POP_TRACER,
   OP_SET_REPORTER, // k1 = generation to install; k2: 1 = pair form, 0 = single-argument form
-  OP_ASSIGN_SEQ,   // s1: a fresh sequence object (k1 = 0) or the live sequence object s2 (k1 = 1) is move-assigned over the live one (the old one's pending expectations are reported as at destruction)
+  OP_ASSIGN_SEQ,   // s1: a fresh sequence object (k1 = 0) or the live sequence object s2 (k1 = 1: it stays alive, moved-from; k1 = 2: it is destroyed right afterwards) is move-assigned over the live one (the old one's pending expectations are reported as at destruction)
   OP_ARM_OK,       // the OK reporter is user code: on the next OK report it installs reporter generation k1 (pair form) from inside the callback
   OP_ARM_REPORTER, // the reporter is user code: on the next non-fatal report it destroys mock object obj (a "tear the fixture down on the first violation" policy)
   OP_NKINDS
